@@ -115,6 +115,7 @@ type SchedCfg struct {
 	HorizonNs int64 `json:"horizon_ns"` // simulated time without any activity => quiescent
 	PCTDepth  int   `json:"pct_depth"`  // >0: priority scheduling with that many change points
 	PCTLen    int   `json:"pct_len"`    // expected run length for change point placement
+	Dense     bool  `json:"dense,omitempty"` // scheduling points before every statement of the library (rewriter rule R9)
 }
 
 type Case struct {
@@ -615,6 +616,8 @@ func execute(c *Case, w World, runSeed uint64, replayTape []int64, replay bool, 
 				e.HarnessError(fmt.Sprintf("panic on scheduler goroutine: %v\n%s", r, debug.Stack()))
 			}
 		}()
+		zsimrt.SetDense(c.Sched.Dense)
+		defer zsimrt.SetDense(false)
 		if PreSetup != nil {
 			PreSetup()
 		}
